@@ -8,14 +8,17 @@ exactly ONE fault, textually at AST locations, in programs the compiler accepted
 all profiles and the repository's tests + std as one program); a mutant is used only if its edited module
 re-parses to the original tree with exactly the intended subtree replaced, so that each mutant is ill-formed
 by the language definition (spec.md), independently of the checker:
-  operand-type         an operand of + - * / % < <= > >= is the string literal "s" (6.9: int operands)
+  operand-type         an operand of + - * / % < <= > >= (6.9: int operands), or an argument for a parameter declared
+                       `int` (5.9), is the string literal "s"
   arg-count            one argument too many / too few for the callee's function type (5.3, 5.13, 14.6)
   targ-count           k+1 / k-1 explicit type arguments for k type parameters; <int> for none (5.13, 6.7.4)
   unbound-var          a use of a local renamed to an identifier that occurs nowhere (6.2)
   unbound-class/-member/-module   a name that occurs nowhere in the program (6.4, 6.6, 3.2)
   private-member       `private` on a member / class that another module uses (3.4, 4.6); offending = the users
   iface-missing        a method required by an implemented interface deleted / its return type changed (4.2, 4.4, 5.13)
-  bound-violation      a bounded type parameter instantiated with Str, which implements nothing (5.6, 5.10)
+  bound-violation      a bounded type parameter instantiated with Str, which implements nothing (5.6, 5.10); or the
+                       `: Interface` clause of a class removed (it keeps its methods), offending = every module where
+                       that class instantiates a bounded type parameter, explicitly or by inference (5.6, 5.8)
   int-range            2147483648 (not after `-`) / -2147483649 (2.2, 13.3)
   match-nonexhaustive  one arm of a match whose arms are distinct plain variant patterns deleted (6.11)"""
 import json, os, time
@@ -225,6 +228,11 @@ def run(tier):
     for action in ("Parse", "Check", "Emit", "Refuse"):
         if f"<{action} line" not in mc.out:
             tool_failure(f"vacuity: action {action} of Pipeline.tla not covered")
+    # the same model with the lexer as found on the pinned tree must fail (the invariants are not vacuous)
+    asis = tlc("Pipeline", "PipelineAsIs.cfg", workers=1, timeout=300, tag="c06asis")
+    if asis.violated != "InvC06":
+        log(asis.out[-2000:])
+        tool_failure("vacuity: Pipeline.tla with LexicalChecked = FALSE does not violate InvC06")
     # 2. the fault model on the real compiler
     avoid, live = check_known(d, stats)
     gen, repo = corpus(d, tier)
@@ -251,7 +259,8 @@ def run(tier):
     reported = set()
     for rec, inv in bad:
         if "fault" not in rec:
-            case = {"program": {"origin": rec.get("origin")}, "note": "unmutated original"}
+            orig = next((p for p in gen + [repo] if p.get("origin") == rec.get("origin")), {})
+            case = {"program": {k: orig[k] for k in ("origin", "entry", "sources", "with_std") if k in orig}, "note": "unmutated original"}
             sig = ("baseline", inv)
         else:
             case = {"program": source_of(rec, by_id)}
@@ -296,7 +305,8 @@ def run(tier):
         "corpus": {"generated": len(gen), "repository_modules": len(repo["sources"])},
         "mutants_by_corpus": {c: sum(1 for r in recs if r["corpus"] == c) for c in ("gen", "repo")},
         "baseline_fault_free_traces": len(base),
-        "model": {"states": mc.distinct, "transitions": mc.generated, "fault_sets": "all subsets of 4 kinds x 3 modules with at most 3 faults"},
+        "model": {"states": mc.distinct, "transitions": mc.generated, "fault_sets": "all subsets of 4 kinds x 3 modules with at most 3 faults",
+                  "as_is_variant_violates": asis.violated},
         "trace_states_checked_by_tlc": stats.get("tlc_states", 0),
         "model_drift_records": len(drift),
         "operators_switched_off_by_known_findings": sorted(avoid),
@@ -304,7 +314,8 @@ def run(tier):
     }
     write_evidence(PID, tier, "fault_enumeration", coverage,
                    ["mutants are single-fault: one textual splice per mutant at a site found in the typed AST of the accepted original",
-                    "the offending module of a visibility fault is every module that uses the now-private name; of every other fault the edited module",
+                    "the offending module of a visibility fault is every module that uses the now-private name, of an un-implemented class every module "
+                    "that instantiates a bounded type parameter with it; of every other fault the edited module",
                     "artefacts_present is observed on samlang_compiler::compile_sources (the function the command line calls), not on the CLI's file output",
                     "sites inside the built-in std modules are not mutated for generated programs (the repository program carries std as ordinary modules)"],
                    time.time() - t0, fails)
